@@ -326,7 +326,14 @@ pub fn run_property(prop: &dyn Property, tier: Tier, seed: u64) -> Outcome {
                         if !st.frozen {
                             st.evaluations += 1;
                         }
-                        match run_guarded(prop, &tapes, &mut st) {
+                        crate::crashguard::begin_case(&tapes.a, &tapes.b, &tapes.c);
+                        let outcome = run_guarded(prop, &tapes, &mut st);
+                        crate::crashguard::end_case();
+                        if crate::crashguard::enabled() {
+                            crate::crashguard::EVALS.fetch_add(1, Ordering::Relaxed);
+                            crate::crashguard::NONTRIVIAL.store(st.nontrivial.len() as u64, Ordering::Relaxed);
+                        }
+                        match outcome {
                             Ok(()) => Ok(()),
                             Err(f) => {
                                 if let Some(sig) = &f.signature {
@@ -540,7 +547,12 @@ pub fn main_replay(prop: &dyn Property, path: &str) -> i32 {
         let r = std::thread::scope(|scope| {
             std::thread::Builder::new()
                 .stack_size(prop.stack_mib() << 20)
-                .spawn_scoped(scope, || run_guarded(prop, &tapes, &mut st))
+                .spawn_scoped(scope, || {
+                    crate::crashguard::begin_case(&tapes.a, &tapes.b, &tapes.c);
+                    let r = run_guarded(prop, &tapes, &mut st);
+                    crate::crashguard::end_case();
+                    r
+                })
                 .expect("spawn")
                 .join()
                 .expect("join")
